@@ -49,7 +49,13 @@ man = dict(
             path="vlib/core.py",
             serves_properties=[c["property_id"] for c in checks],
             kind_free_text="Hypothesis 6.168 strategies producing plain-data cases; phase A collects oracle failures into buckets, phase B shrinks one case per new bucket into a replay file; exhaustive enumeration where the space is finite",
-        )
+        ),
+        dict(
+            name="atheris-libfuzzer-via-hypothesis",
+            path="vlib/fuzz.py",
+            serves_properties=[c["property_id"] for c in checks if c["property_id"] in ("C01", "C02", "C04", "C06", "C07")],
+            kind_free_text="thorough tier of the five reader checks: atheris 3.1 / libFuzzer (coverage-guided, reamber instrumented) drives the same Hypothesis strategy through fuzz_one_input with the property's oracle inside the target; failures are bucketed like phase A; wall-clock budget, expiry is never a violation",
+        ),
     ],
     checks=checks,
     notes="See DESIGN.md. Exit codes: 0 held, 1 VIOLATION (+replay), 2 harness error. Every run is a function of the tree and VERIF_SEED.",
